@@ -43,7 +43,7 @@ DEFAULT_PROFILE = {
     "runs": (1, 5), "split_identical": 0.25, "tab": 0.12, "br": 0.08, "br_typed": 0.2, "opaque": 0.06, "ins": 0.18, "del": 0.15,
     "subst": 0.10, "comment": 0.15, "point_comment": 0.03, "reply": 0.4, "bookmark": 0.06, "proof": 0.05,
     "hyperlink": 0.05, "field": 0.04, "header": 0.25, "footer": 0.2, "fmt": 0.45, "empty_run": 0.04,
-    "span": 0.12, "vmerge": 0.08, "overlap_comment": 0.06, "para_mark_rev": 0.0, "sect_break": 0.04, "comment_in_ins": 0.3, "multi_author": True, "literal_tab": 0.02,
+    "span": 0.12, "vmerge": 0.08, "overlap_comment": 0.06, "para_mark_rev": 0.0, "sect_break": 0.08, "comment_in_ins": 0.3, "multi_author": True, "literal_tab": 0.02,
     # off by default (switched on by the profiles of the checks that need them)
     "shared_rev_id": 0.0, "odd_rev_id": 0.0, "shuffle_comments": 0.0, "comment_id_gap": 0.0, "comment_on_del": 0.0,
 }
